@@ -28,10 +28,11 @@ def run_shard(spec: Dict[str, Any], journal: Any) -> Dict[str, Any]:
     rec = runner.Recorder(PROPERTY)
     if spec['kind'] == 'single':
         indices = list(range(len(SPECS)))[spec['part']::spec['parts']]
-        runner.shard_single(rec, SPECS, indices, (spec['seed'], PROPERTY, 'single', spec['part']), spec['tier'], journal)
+        runner.shard_single(rec, SPECS, indices, (spec['seed'], PROPERTY, 'single', spec['part']), spec['tier'], journal,
+                            hidden=spec_hex.HIDDEN)
     else:
         runner.shard_sequence(rec, SPECS, (spec['seed'], PROPERTY, 'sequence', spec['part']), spec['programs'], spec['tier'], journal,
-                              ['hex'], 'hex')
+                              ['hex', 'bit', 'field'], 'hex', hidden=spec_hex.HIDDEN)
     engines.cleanup_tmpdir()
     return {'counters': rec.counters, 'violations': rec.violations, 'hashes': rec.hashes, 'samples': rec.samples,
             'evaluations': rec.counters.get('monitor_evaluations', 0)}
